@@ -10,7 +10,7 @@ import pl  # noqa: E402
 LEVEL = "exploration"
 
 
-GEO = [[], ["--PhaseSpaceSize", 10], ["--PhaseSpaceShiftX", 1], ["--PhaseSpaceShiftY", 3, "--PhaseSpaceShiftX", -2]]
+GEO = [[], ["--PhaseSpaceSize", 10], ["--PhaseSpaceShiftX", 1], ["--PhaseSpaceShiftY", 3, "--PhaseSpaceShiftX", -2], ["-I", 1e-3, 0, 2e-3]]
 
 
 def process_level(res, tier):
@@ -23,9 +23,13 @@ def process_level(res, tier):
                 for fptype in (3, 1):
                     cases.append((n, stencil, zoom, fptype, 0))
         # grid geometry: another phase-space size, an odd grid, axes shifted (the limit is a property of the physics, not of where the grid sits)
-        for geo in (1, 2, 3):
+        for geo in (1, 2, 3, 4):      # 4: a train (two bunches and an empty bucket) - every bunch relaxes like a single one
+            # the explicit scheme's stable range: per-step decrement over cell^2 at most 1/2 (outside it the program produces NaN - not a C04 matter)
+            if (2.0 / (2.0 * 64)) / (((10.0 if geo == 1 else 12.0) / (n - 1)) ** 2) > 0.5:
+                continue
             for stencil in (3, 4):
                 cases.append((n, stencil, 1.4, 3, geo))
+        cases.append((n, 4, 1.4, 1, 4))
     steps, td = 64, 2.0    # damping time in synchrotron periods
     fs = 45000.0
 
@@ -51,23 +55,29 @@ def process_level(res, tier):
         if doc is None or "error" in doc:
             res.violate("C04/process/run-failed", case, "rc=%s %s" % (r["rc"], r["log"][-200:]), replay=rp)
             continue
-        bl = doc["datasets"]["/BunchLength/data"]["data"]
-        es = doc["datasets"]["/EnergySpread/data"]["data"]
-        res.eval(case, pl.chash(case, bl, es), trivial=False)
-        d = (10.0 if geo == 1 else 12.0) / (n - 1)
-        if fptype == 3:
-            k = steps // 8
-            mq, mp = sum(bl[-k:]) / k, sum(es[-k:]) / k
-            tol = 0.005 + 0.45 * d * d
-            res.coverage["worst_process_limit_over_tol"] = max(res.coverage.get("worst_process_limit_over_tol", 0), max(abs(mq - 1), abs(mp - 1)) / tol)
-            if abs(mq - 1) > tol or abs(mp - 1) > tol:
-                res.violate("C04/process/full/stencil=%d/wrong-limit" % stencil, case, "after 8 damping times bunch length %.5f, energy spread %.5f (tolerance %.4f)" % (mq, mp, tol), replay=rp)
-        else:
-            s2 = [a * a + b * b for a, b in zip(bl, es)]
-            for i in range(1, len(s2)):
-                if s2[i] > s2[i - 1] + 2e-6:
-                    res.violate("C04/process/damping-only/stencil=%d/not-monotonic" % stencil, case, "record %d: sigma_q^2+sigma_p^2 grows from %.7f to %.7f" % (i, s2[i - 1], s2[i]), replay=rp)
-                    break
+        nbunch = doc["datasets"]["/BunchLength/data"]["dims"][1]
+        res.eval(case, pl.chash(case, doc["datasets"]["/BunchLength/data"]["data"], doc["datasets"]["/EnergySpread/data"]["data"]), trivial=False)
+        if geo == 4 and nbunch != 2:
+            res.violate("C04/process/bunch-columns", case, "expected 2 bunch columns, found %d" % nbunch, replay=rp)
+            continue
+        for bunch in range(nbunch):
+            bl = doc["datasets"]["/BunchLength/data"]["data"][bunch::nbunch]
+            es = doc["datasets"]["/EnergySpread/data"]["data"][bunch::nbunch]
+            bcase = case + (" bunch=%d" % bunch if nbunch > 1 else "")
+            d = (10.0 if geo == 1 else 12.0) / (n - 1)
+            if fptype == 3:
+                k = steps // 8
+                mq, mp = sum(bl[-k:]) / k, sum(es[-k:]) / k
+                tol = 0.005 + 0.45 * d * d
+                res.coverage["worst_process_limit_over_tol"] = max(res.coverage.get("worst_process_limit_over_tol", 0), max(abs(mq - 1), abs(mp - 1)) / tol)
+                if not (abs(mq - 1) <= tol and abs(mp - 1) <= tol):
+                    res.violate("C04/process/full/stencil=%d/wrong-limit" % stencil, bcase, "after 8 damping times bunch length %.5f, energy spread %.5f (tolerance %.4f)" % (mq, mp, tol), replay=rp)
+            else:
+                s2 = [a * a + b * b for a, b in zip(bl, es)]
+                for i in range(1, len(s2)):
+                    if not (s2[i] <= s2[i - 1] + 2e-6):
+                        res.violate("C04/process/damping-only/stencil=%d/not-monotonic" % stencil, bcase, "record %d: sigma_q^2+sigma_p^2 grows from %.7f to %.7f" % (i, s2[i - 1], s2[i]), replay=rp)
+                        break
     res.bounds_done.append("process level: %d runs of the real binary (-G 0): full FP limit after 8 damping times, damping-only monotonicity" % len(cases))
 
 
